@@ -154,13 +154,19 @@ class Ctx:
         return cond
 
     def finish_floors(self):
+        """No vacuous pass: a rule that matched *no* instance although the reference
+        tree has some reports the missing construct (violation).  Matching fewer
+        instances than on the reference tree (but at least one) is recorded as a
+        note only - a refactoring may legitimately merge or drop sites."""
         for r in self.rules.values():
-            if r.failed == 0 and not r.undecided and r.instances < r.floor:
+            if r.failed == 0 and not r.undecided and r.floor > 0 and r.instances == 0:
                 self._cur = r
                 self.missing(
                     "pybads",
-                    f"rule {r.id} matched {r.instances} instance(s), fewer than the {r.floor} confirmed on the reference tree ({r.decides})",
+                    f"rule {r.id} matched no instance at all; {r.floor} were confirmed on the reference tree ({r.decides})",
                 )
+            elif r.failed == 0 and r.instances < r.floor:
+                self.notes.append(f"rule {r.id} matched {r.instances} instance(s), fewer than the {r.floor} confirmed on the reference tree")
 
 
 def load_known() -> List[dict]:
